@@ -147,6 +147,11 @@ type Disk struct {
 	ops     uint64
 	snapSeq uint64
 	faults  []*Fault
+	// sticky fault: after `stickyAfter` more operations of kind `stickyKind`
+	// every further one fails, until Disarm
+	stickyKind  string
+	stickyAfter int
+	stickyOn    bool
 	onCrash func(reason string) // called (in a new goroutine) after a fault-triggered crash
 	Taken   []string            // crash/error points actually taken: "kind/when"
 }
@@ -181,7 +186,22 @@ func (d *Disk) Arm(f Fault) {
 }
 
 // Disarm drops all pending faults.
-func (d *Disk) Disarm() { d.mu.Lock(); d.faults = nil; d.mu.Unlock() }
+func (d *Disk) Disarm() { d.mu.Lock(); d.faults = nil; d.stickyOn = false; d.mu.Unlock() }
+
+// FailAfter lets n more operations of the kind succeed and fails all later ones.
+func (d *Disk) FailAfter(kind string, n int) {
+	d.mu.Lock()
+	d.stickyKind, d.stickyAfter, d.stickyOn = kind, n, true
+	d.mu.Unlock()
+}
+
+// LastLogIndex returns the largest index in the durable log.
+func (d *Disk) LastLogIndex() uint64 {
+	d.mu.Lock()
+	defer d.mu.Unlock()
+	_, hi := d.im.bounds()
+	return hi
+}
 
 // Crash bumps the epoch now (a crash between two operations).
 func (d *Disk) Crash(reason string) {
@@ -221,6 +241,16 @@ func (h *Handle) op(kind string, e Ev, f func(im *image)) error {
 	crashAfter := false
 	if live {
 		d.ops++
+		if d.stickyOn && strings.HasPrefix(kind, d.stickyKind) {
+			if d.stickyAfter > 0 {
+				d.stickyAfter--
+			} else {
+				d.Taken = append(d.Taken, kind+"/error")
+				e.K, e.S, e.Ep, e.Z = "d.err", d.name, h.ep, kind
+				d.w.Log(e)
+				return errInjected
+			}
+		}
 		for i, ft := range d.faults {
 			if ft.Kind != "" && !strings.HasPrefix(kind, ft.Kind) {
 				continue
